@@ -152,6 +152,17 @@ func main() {
 	b.WriteString("import Model.GErrClone\n/-! GENERATED on every run by harness/cmd/extract-gerror from gerror/gerror.go, factory.go and\nstack.go of the checked tree — do not edit.  What `*GError`'s factory methods hand to `CloneBase`. -/\nnamespace Generated.GerrorBase\nopen GErrClone\n\n")
 	b.WriteString("/-- method names of the `Factory` interface (without `Error`, `Is`), in declaration order -/\ndef factoryMethods : List String := [" + quoteList(factoryMethods) + "]\n\n")
 	b.WriteString("def rows : List (String × Row) := [\n" + leanRows(baseList) + "]\n\n")
+	var baseErrParts []string
+	for _, d := range gf.Decls {
+		if fd, ok := d.(*ast.FuncDecl); ok && fd.Name.Name == "Error" && recvType(fd) == "GError" {
+			baseErrParts = extractErrorParts(fd)
+		}
+	}
+	if baseErrParts == nil {
+		fatal("gerror.go: no method Error on *GError")
+	}
+	b.WriteString("/-- the sections `(*GError).Error()` writes, in order -/\ndef errorParts : List String := [" + quoteList(baseErrParts) + "]\n\n")
+	b.WriteString(utilsLean(fset, *dir))
 	b.WriteString(storesLean(fset, *dir))
 	fmt.Fprintf(&b, "/-- the `StackType` constants of stack.go -/\ndef stackDepths : List (StackType × Nat) :=\n  [(.noStack, %s), (.sourceStack, %s), (.shortStack, %s), (.defaultStack, %s)]\n\ndef defaultSkip : Nat := %s\n\nend Generated.GerrorBase\n",
 		consts["NoStack"], consts["SourceStack"], consts["ShortStack"], consts["DefaultStack"], consts["defaultSkip"])
@@ -714,49 +725,48 @@ func extractPrimary(fd *ast.FuncDecl) primInfo {
 	return p
 }
 
-// Error(): the sequence of `result += …` statements, classified by what they append.
+// Error(): the labelled sections in the order their string literals appear in the body.  Reading the
+// literals rather than a particular statement form keeps this independent of how the text is
+// assembled (+=, strings.Builder, a helper closure …).
 func extractErrorParts(fd *ast.FuncDecl) []string {
 	var parts []string
-	var visit func(stmts []ast.Stmt)
-	classify := func(e ast.Expr) string {
-		var b bytes.Buffer
-		ast.Inspect(e, func(n ast.Node) bool {
-			if bl, ok := n.(*ast.BasicLit); ok && bl.Kind == token.STRING {
-				s, _ := strconv.Unquote(bl.Value)
-				b.WriteString(s)
-			}
+	ast.Inspect(fd.Body, func(n ast.Node) bool {
+		bl, ok := n.(*ast.BasicLit)
+		if !ok || (bl.Kind != token.STRING && bl.Kind != token.CHAR) {
 			return true
-		})
-		s := b.String()
+		}
+		var s string
+		if bl.Kind == token.CHAR {
+			r, _, _, err := strconv.UnquoteChar(strings.Trim(bl.Value, "'"), '\'')
+			if err != nil {
+				return true
+			}
+			s = string(r)
+		} else {
+			var err error
+			if s, err = strconv.Unquote(bl.Value); err != nil {
+				return true
+			}
+		}
 		switch {
 		case strings.HasPrefix(s, "Name: "):
-			return "name"
+			parts = append(parts, "name")
 		case strings.HasPrefix(s, "DTag: "):
-			return "dtag"
+			parts = append(parts, "dtag")
 		case strings.HasPrefix(s, "Source: "):
-			return "source"
+			parts = append(parts, "source")
 		case strings.HasPrefix(s, "PRINTAS: %v"):
-			return "print-fields"
+			parts = append(parts, "print-fields")
 		case strings.HasPrefix(s, "Message: "):
-			return "message"
+			parts = append(parts, "message")
 		case strings.HasPrefix(s, "\n"):
-			return "stack"
+			parts = append(parts, "stack")
+		case s == ", " || s == "":
+		default:
+			parts = append(parts, "other:"+s)
 		}
-		return "other:" + s
-	}
-	visit = func(stmts []ast.Stmt) {
-		for _, s := range stmts {
-			switch x := s.(type) {
-			case *ast.AssignStmt:
-				if x.Tok == token.ADD_ASSIGN && len(x.Lhs) == 1 && isSel(x.Lhs[0], "", "result") {
-					parts = append(parts, classify(x.Rhs[0]))
-				}
-			case *ast.IfStmt:
-				visit(x.Body.List)
-			}
-		}
-	}
-	visit(fd.Body.List)
+		return true
+	})
 	return parts
 }
 
@@ -992,4 +1002,189 @@ func storesOf(fd *ast.FuncDecl) [][2]string {
 		return true
 	})
 	return out
+}
+
+// ---- utils.go -----------------------------------------------------------------------------------
+
+// utilsLean reads `var ErrUnknown = FactoryOf(&GError{…})` and the two branches of ExtMsgf:
+//
+//	v, ok := <param>.(Factory)   (as a statement or as the init of the if)
+//	ok   -> return v.<Method>(<params>...)
+//	!ok  -> return <package var>.<Method>(<params>)
+//
+// in either order of the branches.
+func utilsLean(fset *token.FileSet, dir string) string {
+	f, err := parser.ParseFile(fset, filepath.Join(dir, "utils.go"), nil, 0)
+	if err != nil {
+		fatal("%v", err)
+	}
+	var fields []string
+	var ext *ast.FuncDecl
+	for _, d := range f.Decls {
+		switch x := d.(type) {
+		case *ast.FuncDecl:
+			if x.Name.Name == "ExtMsgf" && x.Recv == nil {
+				ext = x
+			}
+		case *ast.GenDecl:
+			if x.Tok != token.VAR {
+				continue
+			}
+			for _, sp := range x.Specs {
+				vs := sp.(*ast.ValueSpec)
+				for k, n := range vs.Names {
+					if n.Name != "ErrUnknown" || k >= len(vs.Values) {
+						continue
+					}
+					call, _ := vs.Values[k].(*ast.CallExpr)
+					if call == nil || !isSel(call.Fun, "", "FactoryOf") || len(call.Args) != 1 {
+						fatal("utils.go: ErrUnknown is not FactoryOf(&GError{…})")
+					}
+					ue, _ := call.Args[0].(*ast.UnaryExpr)
+					var cl *ast.CompositeLit
+					if ue != nil && ue.Op == token.AND {
+						cl, _ = ue.X.(*ast.CompositeLit)
+					}
+					if cl == nil || !isSel(cl.Type, "", "GError") {
+						fatal("utils.go: ErrUnknown is not FactoryOf(&GError{…})")
+					}
+					for _, el := range cl.Elts {
+						kv, ok := el.(*ast.KeyValueExpr)
+						key, _ := kv.Key.(*ast.Ident)
+						var val ast.Expr
+						if ok {
+							val = kv.Value
+							if id, isId := val.(*ast.Ident); isId {
+								if c, isC := pkgConsts[id.Name]; isC {
+									val = c
+								}
+							}
+						}
+						bl, _ := val.(*ast.BasicLit)
+						if !ok || key == nil || bl == nil || bl.Kind != token.STRING {
+							fatal("utils.go: ErrUnknown has a field that is not `Name: \"literal\"`")
+						}
+						v, _ := strconv.Unquote(bl.Value)
+						fields = append(fields, fmt.Sprintf("(%s, %s)", strconv.Quote(key.Name), strconv.Quote(v)))
+					}
+				}
+			}
+		}
+	}
+	if fields == nil {
+		fatal("utils.go: var ErrUnknown not found")
+	}
+	if ext == nil {
+		fatal("utils.go: func ExtMsgf not found")
+	}
+	var params []string
+	for _, fl := range ext.Type.Params.List {
+		for _, n := range fl.Names {
+			params = append(params, n.Name)
+		}
+	}
+	pidx := func(e ast.Expr) int {
+		if id, ok := e.(*ast.Ident); ok {
+			for i, p := range params {
+				if p == id.Name {
+					return i
+				}
+			}
+		}
+		return -1
+	}
+	bad := func(why string) { fatal("utils.go: ExtMsgf: %s", why) }
+	stmts := ext.Body.List
+	var assert *ast.AssignStmt
+	var ifs *ast.IfStmt
+	if len(stmts) > 0 {
+		if as, ok := stmts[0].(*ast.AssignStmt); ok {
+			assert = as
+			stmts = stmts[1:]
+		}
+	}
+	if len(stmts) > 0 {
+		ifs, _ = stmts[0].(*ast.IfStmt)
+		stmts = stmts[1:]
+	}
+	if ifs == nil {
+		bad("no if statement on the result of the type assertion")
+	}
+	if assert == nil {
+		assert, _ = ifs.Init.(*ast.AssignStmt)
+	} else if ifs.Init != nil {
+		bad("type assertion and a second if-initialiser")
+	}
+	if assert == nil || assert.Tok != token.DEFINE || len(assert.Lhs) != 2 || len(assert.Rhs) != 1 {
+		bad("no `v, ok := err.(Factory)`")
+	}
+	ta, _ := assert.Rhs[0].(*ast.TypeAssertExpr)
+	vId, _ := assert.Lhs[0].(*ast.Ident)
+	okId, _ := assert.Lhs[1].(*ast.Ident)
+	if ta == nil || vId == nil || okId == nil || pidx(ta.X) < 0 || !isSel(ta.Type, "", "Factory") {
+		bad("no `v, ok := <parameter>.(Factory)`")
+	}
+	single := func(bs *ast.BlockStmt) ast.Expr {
+		if bs == nil || len(bs.List) != 1 {
+			return nil
+		}
+		r, _ := bs.List[0].(*ast.ReturnStmt)
+		if r == nil || len(r.Results) != 1 {
+			return nil
+		}
+		return r.Results[0]
+	}
+	thenE := single(ifs.Body)
+	var elseE ast.Expr
+	switch {
+	case ifs.Else != nil && len(stmts) == 0:
+		eb, _ := ifs.Else.(*ast.BlockStmt)
+		elseE = single(eb)
+	case ifs.Else == nil && len(stmts) == 1:
+		elseE = single(&ast.BlockStmt{List: stmts})
+	}
+	if thenE == nil || elseE == nil {
+		bad("the two branches are not single returns")
+	}
+	var okE, notE ast.Expr
+	if isSel(ifs.Cond, "", okId.Name) {
+		okE, notE = thenE, elseE
+	} else if ue, isU := ifs.Cond.(*ast.UnaryExpr); isU && ue.Op == token.NOT && isSel(ue.X, "", okId.Name) {
+		okE, notE = elseE, thenE
+	} else {
+		bad("the condition is neither ok nor !ok")
+	}
+	argIdx := func(c *ast.CallExpr) string {
+		p := make([]string, len(c.Args))
+		for i, a := range c.Args {
+			k := pidx(a)
+			if k < 0 {
+				bad("a call argument is not a parameter of ExtMsgf")
+			}
+			p[i] = strconv.Itoa(k)
+		}
+		return "[" + strings.Join(p, ", ") + "]"
+	}
+	okC, _ := okE.(*ast.CallExpr)
+	notC, _ := notE.(*ast.CallExpr)
+	if okC == nil || notC == nil {
+		bad("a branch does not return a method call")
+	}
+	okS, _ := okC.Fun.(*ast.SelectorExpr)
+	notS, _ := notC.Fun.(*ast.SelectorExpr)
+	if okS == nil || !isSel(okS.X, "", vId.Name) {
+		bad("the Factory branch does not call a method of the asserted value")
+	}
+	var notRecv *ast.Ident
+	if notS != nil {
+		notRecv, _ = notS.X.(*ast.Ident)
+	}
+	if notRecv == nil || pidx(notRecv) >= 0 || notRecv.Name == vId.Name {
+		bad("the other branch does not call a method of a package-level factory")
+	}
+	var b strings.Builder
+	b.WriteString("/-- the fields of `var ErrUnknown = FactoryOf(&GError{…})` in utils.go -/\ndef errUnknownFields : List (String × String) := [" + strings.Join(fields, ", ") + "]\n\n")
+	fmt.Fprintf(&b, "/-- `ExtMsgf`: index of the parameter asserted to `Factory`; on success the method called on it with\nthese parameters (and whether the last is spread with `...`); otherwise receiver, method, parameters -/\ndef extMsgfAsserts : Nat := %d\ndef extMsgfFactoryBranch : String × List Nat × Bool := (%s, %s, %v)\ndef extMsgfElseBranch : String × String × List Nat := (%s, %s, %s)\n\n",
+		pidx(ta.X), strconv.Quote(okS.Sel.Name), argIdx(okC), okC.Ellipsis.IsValid(), strconv.Quote(notRecv.Name), strconv.Quote(notS.Sel.Name), argIdx(notC))
+	return b.String()
 }
